@@ -217,13 +217,16 @@ class Summaries:
             return self.concrete_seq(I, it.args[0])
         if it.op == "zip":
             a, b = self.concrete_seq(I, it.args[0]), self.concrete_seq(I, it.args[1])
-            if (a is None) != (b is None):
-                # one side symbolic with a statically known length (an array parameter): its items are index terms
-                sym = it.args[1] if b is None else it.args[0]
+            # a symbolic side with a statically known length (an array parameter / field): its items are index terms
+            def items_of(sym):
                 n = I.length_of(sym)
                 if n is not None and n <= 16:
-                    items = [Tm.index(sym, lit(k)) for k in range(n)]
-                    a, b = (a, items) if b is None else (items, b)
+                    return [Tm.index(sym, lit(k)) for k in range(n)]
+                return None
+            if a is None:
+                a = items_of(it.args[0])
+            if b is None:
+                b = items_of(it.args[1])
             if a is None or b is None:
                 return None
             return [mk("tuple", x, y) for x, y in zip(a, b)]
@@ -378,6 +381,20 @@ class Summaries:
             return mk("lex_cmp", a[0], a[1])
         if tp in ("core::iter::Iterator::partial_cmp",):
             return variant("Some", mk("lex_cmp", a[0], a[1]))
+        if tp == "core::array::from_fn" and a and a[0].op == "closure":
+            n = I.length_of(mk("bottom"), ctx.e if isinstance(ctx.e, dict) else None)
+            if n is None:
+                for t_ in ctx.targs or []:
+                    if re.fullmatch(r"\d+", str(t_)):
+                        n = int(t_)
+            if n is not None and n <= 64:
+                items = []
+                for k in range(n):
+                    r = I.apply_fn(a[0], [lit(k)], ctx.e, ctx.env, ctx.fr)
+                    if r is None:
+                        return NotImplemented
+                    items.append(r[0])
+                return mk("array", *items)
         if tp == "core::iter::Iterator::flat_map":
             item = mk("item_of", a[0])
             r = I.apply_fn(a[1], [item], ctx.e, ctx.env, ctx.fr)
